@@ -438,6 +438,36 @@ def asm_all():
             if not m or not adds:
                 die(fname + ": row loop not recognised")
             P("Definition rowloop_%s_%s : list Z * Z := ([%s], %d)." % (base, isa, "; ".join(a or "1" for a in adds), 1 if m.group(1).startswith("dec") else int(m.group(2))))
+    # AVX2 accurate DCTs: the in-place 8x8 word transposes (two rows / columns per ymm register), instruction by instruction
+    P("(* ---- DOTRANSPOSE macros of jfdctint-avx2.asm / jidctint-avx2.asm: (mnemonic, dst, src1, src2-or-0, immediate) on macro parameters %1..%8 ---- *)")
+    for base in ("jfdctint", "jidctint"):
+        fname = base + "-avx2.asm"
+        txt = re.sub(r";.*", "", rd("simd/x86_64/" + fname))
+        m = re.search(r"%macro\s+DOTRANSPOSE\s+8\s*\n(.*?)%endmacro", txt, re.S)
+        if not m:
+            die(fname + ": macro DOTRANSPOSE 8 not found")
+        prog = []
+        for line in m.group(1).split("\n"):
+            line = line.strip()
+            if not line:
+                continue
+            m3 = re.fullmatch(r"(vpunpck[lh](?:wd|dq|qdq))\s+%(\d),\s*%(\d),\s*%(\d)", line)
+            m2 = re.fullmatch(r"(vpermq)\s+%(\d),\s*%(\d),\s*(0x[0-9A-Fa-f]+)", line)
+            if m3:
+                prog.append((m3.group(1), int(m3.group(2)), int(m3.group(3)), int(m3.group(4)), 0))
+            elif m2:
+                prog.append((m2.group(1), int(m2.group(2)), int(m2.group(3)), 0, int(m2.group(4), 16)))
+            else:
+                die("%s: DOTRANSPOSE contains an instruction the shuffle model does not know: %s" % (fname, line))
+        if len(prog) < 12:
+            die(fname + ": DOTRANSPOSE shorter than expected")
+        P("Definition %s_avx2_dotranspose : list (string * nat * nat * nat * Z) :=" % base)
+        P("  [%s]." % "; ".join('("%s", %d%%nat, %d%%nat, %d%%nat, %d)' % t for t in prog))
+        # how the macro is invoked (register order), pass 1 and pass 2
+        calls = re.findall(r"^\s*DOTRANSPOSE\s+(ymm\d(?:,\s*ymm\d){7})\s*$", txt, re.M)
+        if len(calls) != 2:
+            die(fname + ": expected two DOTRANSPOSE invocations")
+        P("Definition %s_avx2_dotranspose_calls : list (list Z) := [%s]." % (base, "; ".join("[%s]" % "; ".join(re.findall(r"ymm(\d)", c)) for c in calls)))
     # h2v2 merged upsampling = two calls of the h2v1 routine: which luma/output row each call handles, in call order
     for isa in ("sse2", "avx2"):
         fname = "jdmrgext-%s.asm" % isa
